@@ -129,11 +129,19 @@ def run_cvc5(solver, timeout_ms):
 # quantifier-free query.  A model of it is only a CANDIDATE (the instantiation is incomplete):
 # it counts for nothing unless the native replay reproduces a failure on the real code.
 
-def finitize(e, idxs, cache=None):
+class TooBig(Exception):
+    pass
+
+
+def finitize(e, idxs, cache=None, budget=None):
     cache = {} if cache is None else cache
+    budget = budget if budget is not None else cache.setdefault("__budget__", [60000])
     k = e.get_id()
     if k in cache:
         return cache[k]
+    budget[0] -= 1
+    if budget[0] < 0:
+        raise TooBig()
     if z3.is_quantifier(e):
         nv = e.num_vars()
         body = e.body()
@@ -163,7 +171,7 @@ def candidate(hyps, goal, inputs, bound=4, timeout_ms=8000):
         for h in hyps:
             s.add(finitize(h, idxs, cache))
         s.add(finitize(z3.Not(goal), idxs, cache))
-    except z3.Z3Exception:
+    except (z3.Z3Exception, TooBig):
         return None
     for name, c in (inputs or {}).items():
         if isinstance(c, z3.ArithRef) and c.is_int() and (name.startswith("len(") or name == "n" or ".shape" in name):
